@@ -6,7 +6,9 @@ En(loc, name, c) == [loc |-> loc, name |-> name, kind |-> "file", c |-> c]
 Pool == {En("local", "gopls-2024-01-01.v1.count", 1), En("local", "local.2024-01-08.json", 2), En("local", "2024-01-08.json", 3),
          En("upload", "2024-01-01.json", 4), En("local", "prog.v2.count", 5), En("local", "2024-01-08.json.lock", 6),
          En("local", "weekends", 7), En("root", "stray.json", 8), En("upload", "README", 9)}
-MCTrees == SUBSET Pool
+(* a non-empty directory named like a report, sorting before the data files of local/ *)
+Blocker == {[loc |-> "local", name |-> "2020-01-01.json", kind |-> "dir", c |-> 0], En("local/2020-01-01.json", "keep.json", 10)}
+MCTrees == (SUBSET Pool) \cup {t \cup Blocker : t \in SUBSET Pool}
 MCModeFiles == {Absent, Unreadable, Text("on", NoDate, FALSE), Text("on", 19999, TRUE), Text("off", 20000, FALSE),
                 Text("local", BadDate, FALSE), Text("ON", NoDate, FALSE)}
 =============================================================================
